@@ -417,3 +417,102 @@ Theorem material_cards_recognised cards :
 Proof.
   intros Hwf Hnd. unfold get_materials. now rewrite (get_materials_from_spec cards Hwf []).
 Qed.
+
+(* ------------------------------------------------------------------ *)
+(* repeated material numbers (MCNP refuses them; the code does not):    *)
+(* the first card of a number fixes its place, the last one its entries *)
+(* ------------------------------------------------------------------ *)
+Definition memN (k : N) (l : list N) : bool := existsb (N.eqb k) l.
+
+Fixpoint dedupN (seen l : list N) : list N :=
+  match l with
+  | [] => []
+  | x :: r => if memN x seen then dedupN seen r else x :: dedupN (x :: seen) r
+  end.
+
+Fixpoint lookupN {V} (k : N) (d : list (N * V)) : option V :=
+  match d with
+  | [] => None
+  | (k', v) :: r => if (k =? k')%N then Some v else lookupN k r
+  end.
+
+(* the entries of the LAST card carrying number k *)
+Fixpoint last_card (k : N) (ms : list mcard) : option (list string) :=
+  match ms with
+  | [] => None
+  | m :: r => match last_card k r with
+              | Some t => Some t
+              | None => if (k =? m_num m)%N then Some (render (m_items m)) else None
+              end
+  end.
+
+Lemma dict_set_keys {V} k (v : V) d :
+  map fst (dict_set k v d) = if memN k (map fst d) then map fst d else (map fst d ++ [k])%list.
+Proof.
+  induction d as [|[k' v'] r IH]; simpl; [reflexivity|].
+  destruct (k =? k')%N eqn:E; simpl.
+  - apply N.eqb_eq in E. now subst.
+  - rewrite IH. unfold memN. destruct (existsb (N.eqb k) (map fst r)); reflexivity.
+Qed.
+
+Lemma dict_set_lookup {V} k (v : V) d k' :
+  lookupN k' (dict_set k v d) = if (k' =? k)%N then Some v else lookupN k' d.
+Proof.
+  induction d as [|[k0 v0] r IH]; simpl.
+  - reflexivity.
+  - destruct (k =? k0)%N eqn:E; simpl.
+    + apply N.eqb_eq in E. subst k0. destruct (k' =? k)%N; reflexivity.
+    + rewrite IH. destruct (k' =? k0)%N eqn:E0; [|reflexivity].
+      apply N.eqb_eq in E0. subst k0. destruct (k' =? k)%N eqn:E1; [|reflexivity].
+      apply N.eqb_eq in E1. subst. rewrite N.eqb_refl in E. discriminate.
+Qed.
+
+Lemma memN_In k l : memN k l = true <-> In k l.
+Proof.
+  unfold memN. rewrite existsb_exists. split.
+  - intros (y & Hy & E). apply N.eqb_eq in E. now subst.
+  - intros H. exists k. split; [exact H|apply N.eqb_refl].
+Qed.
+
+Lemma memN_app k a b : memN k (a ++ b)%list = memN k a || memN k b.
+Proof. unfold memN. apply existsb_app. Qed.
+
+(* dedupN only looks at seen as a set *)
+Lemma dedupN_ext l : forall s1 s2, (forall k, memN k s1 = memN k s2) -> dedupN s1 l = dedupN s2 l.
+Proof.
+  induction l as [|x r IH]; intros s1 s2 H; simpl; [reflexivity|]. rewrite (H x).
+  destruct (memN x s2); [now apply IH|]. f_equal. apply IH. intros k. unfold memN in *. simpl. now rewrite H.
+Qed.
+
+Lemma get_materials_from_dups cards : Forall wf_dcard cards ->
+  forall acc, exists d,
+    get_materials_from (map render_dcard cards) acc = Ok d /\
+    map fst d = (map fst acc ++ dedupN (map fst acc) (map m_num (mcards cards)))%list /\
+    (forall k, lookupN k d = match last_card k (mcards cards) with
+                             | Some t => Some t
+                             | None => lookupN k acc
+                             end).
+Proof.
+  induction cards as [|c r IH]; intros Hwf acc; simpl.
+  - exists acc. rewrite app_nil_r. auto.
+  - inversion Hwf as [|? ? Hd Hr]; subst. destruct c as [m|t]; simpl in *.
+    + rewrite (material_head_mcard m Hd).
+      destruct (IH Hr (dict_set (m_num m) (render (m_items m)) acc)) as (d & E & Hk & Hl).
+      exists d. split; [exact E|]. split.
+      * rewrite Hk, dict_set_keys. destruct (memN (m_num m) (map fst acc)) eqn:Em; [reflexivity|].
+        rewrite <- app_assoc. simpl. f_equal. f_equal. apply dedupN_ext.
+        intros k. rewrite memN_app. unfold memN at 2 3. simpl. rewrite orb_false_r. apply orb_comm.
+      * intros k. rewrite Hl, dict_set_lookup. destruct (last_card k (mcards r)); [reflexivity|].
+        destruct (k =? m_num m)%N; reflexivity.
+    + rewrite Hd. exact (IH Hr acc).
+Qed.
+
+Theorem material_cards_duplicates cards : Forall wf_dcard cards ->
+  exists d, get_materials (map render_dcard cards) = Ok d /\
+    map fst d = dedupN [] (map m_num (mcards cards)) /\
+    (forall k, lookupN k d = last_card k (mcards cards)).
+Proof.
+  intros Hwf. destruct (get_materials_from_dups cards Hwf []) as (d & E & Hk & Hl).
+  exists d. split; [exact E|]. split; [exact Hk|]. intros k. rewrite Hl.
+  destruct (last_card k (mcards cards)); reflexivity.
+Qed.
